@@ -321,6 +321,10 @@ class Eval:
             a = self.operand(rv["a"], st)
             if rv["un"] == "PtrMetadata":
                 return T("len", self.value_of(a, st))
+            if rv["un"] == "Not":
+                av = self.value_of(a, st)
+                if av.op == "const" and av.a[0] == "int" and len(av.a) > 2 and av.a[2] == "bool":
+                    return T("const", "int", 0 if av.a[1] else 1, "bool")
             return T("un", rv["un"], a)
         if "discr" in rv:
             return T("discr", self.read_place(rv["discr"], st))
@@ -435,6 +439,35 @@ class Eval:
                     else:
                         self.loop_step[key] = v
 
+    def _fold_variant_eq(self, a, b):
+        """`x == CONST_VARIANT` where x is an assumed root: the comparison is decided by the assumption."""
+        for x, y in ((a, b), (b, a)):
+            r = place_root(strip_sites(x))
+            if r is None or r not in self.assume:
+                continue
+            yy = y
+            while yy.op in ("ref", "deref"):
+                yy = yy.a[0]
+            if yy.op == "promoted":
+                pv = self._promoted_term(yy.a[0])
+                if pv is not None and pv.op == "promoted":
+                    pv = None
+                if pv is None:
+                    continue
+                yy = pv
+                while yy.op in ("ref", "deref"):
+                    yy = yy.a[0]
+            name = None
+            if yy.op == "const" and yy.a[0] == "int" and len(yy.a) > 2 and yy.a[2] in self.prog.adts:
+                for v in self.prog.adts[yy.a[2]]["variants"]:
+                    if v.get("discr", v["index"]) == yy.a[1]:
+                        name = v["name"]
+            elif yy.op == "agg" and yy.a[0][0] == "adt" and not yy.a[1]:
+                name = yy.a[0][2]
+            if name is not None:
+                return self.assume[r] == name
+        return None
+
     def _indirect_value(self, fv, args, where, default):
         while fv.op == "cast" or fv.op in ("ref", "deref"):
             fv = fv.a[1] if fv.op == "cast" else fv.a[0]
@@ -452,6 +485,15 @@ class Eval:
     def _apply_assumption(self, b, t):
         """Mark switch edges that contradict self.assume as dead."""
         d = self.switch.get(b)
+        if d is not None and d.op == "const" and d.a[0] == "int":
+            # the switched value became a constant under the assumptions made so far (e.g. `matches!(x, V)`)
+            val = d.a[1]
+            arms = {v: tg for v, tg in t["arms"]}
+            keep_label = ("sw", b, val) if val in arms else ("sw", b, "otherwise")
+            for tgt, lab in self.fn.cfg.succ[b]:
+                if lab is not None and lab != keep_label:
+                    self.dead.add((b, tgt, lab))
+            return
         if d is None or d.op != "discr":
             return
         root = place_root(d.a[0])
@@ -535,6 +577,11 @@ class Eval:
                 if ra.op == "agg" and ra.a[0][0] == "closure":
                     pass
             self.sites[b] = site
+            if self.assume and c and c.get("name") in ("eq", "ne") and c.get("trait") == "PartialEq" and len(args) == 2:
+                fv = self._fold_variant_eq(args[0], args[1])
+                if fv is not None:
+                    val = T("const", "int", int(fv if c["name"] == "eq" else not fv), "bool")
+                    site.value = val
             if not c and "callee_indirect" in t:
                 # call through a function value: constructors and known functions are resolved
                 val = self._indirect_value(self.value_of(ind, st), args, where, val)
